@@ -13,10 +13,10 @@ Binding:  a ReactorBase subclass with a controlled seconds() and no I/O, driven 
 
 META = dict(
     id="C08",
-    specs=["TimersAbs.tla", "TimersProp.tla", "TimersAbsMC.tla", "TimersImpl.tla", "TimersImplMC.tla", "TimersTrace.tla", "TimersSim.tla"],
+    specs=["TimersAbs.tla", "TimersProp.tla", "TimersAbsMC.tla", "TimersImpl.tla", "TimersImplMC.tla", "TimersImplTrace.tla", "TimersTrace.tla", "TimersSim.tla"],
     technique="TLA+ abstract timer semantics + property invariants (TLC exhaustive), TLA+ transcription of ReactorBase's heap/staging/compaction algorithm checked by TLC to refine it (exhaustive + deep simulation), TLC trace validation of real ReactorBase executions (exhaustive short, random long, compaction-sized, TLC-generated)",
     level_text="TLC checks on the specification that the abstract semantics implies every clause (exactly once iff not cancelled, never early, first iteration at or after the scheduled time, not in the iteration of creation, no earlier pending call when a call runs) for all histories within the stated bounds, that the reactor's algorithm as transcribed refines that semantics, and validates every recorded execution of the real ReactorBase timer code as a behaviour of the specification with every logged observable (run order, times, getDelayedCalls, getTime, exception classes, timeout bound) matched.",
-    level_note="Trusted: TLC, the adapter's logging, the controlled seconds(). Clock is constant during an iteration (as the property says); timeout()/runUntilCurrent are not called from inside running calls; calls do not raise. Histories beyond the exhaustive depth are sampled. TimersImpl is a hand transcription of base.py (bound to it only through the shared traces). Negative delay() amounts are included with the order clause read over eligible calls.",
+    level_note="Trusted: TLC, the adapter's logging, the controlled seconds(). Clock is constant during an iteration (as the property says); timeout()/runUntilCurrent are not called from inside running calls; calls do not raise. Histories beyond the exhaustive depth are sampled. TimersImpl is a hand transcription of base.py, bound to it by replaying recorded executions through it step by step (impl_drift). Negative delay() amounts are included with the order clause read over eligible calls.",
     design_ref="2.4 C08",
     rule="history = top-level operations (callLater with a script of nested operations, cancel, reset, delay, getDelayedCalls, clock advance, runUntilCurrent, timeout) on one reactor; distinct = hash of (cfg, events); non-trivial = at least two different event kinds",
 )
@@ -44,7 +44,7 @@ def run(ctx):
                                          ("NIterEndPlain", "IIterEndPlain")])
     # deep random walks of the algorithm (refinement + structural invariants checked on every step)
     r = ctx.mc("TimersImplMC", "TimersImplMC.sim.cfg", workers=2, coverage=False, label="simulate",
-               args=["-simulate", "num=%d" % ctx.pick(500, 60000), "-depth", "70", "-seed", str(ctx.seed)])
+               args=["-simulate", "num=%d" % ctx.pick(300, 60000), "-depth", "70", "-seed", str(ctx.seed)])
     if not r.ok:
         raise MachineryError("TimersImpl deep simulation: refinement of TimersAbs fails: %s\n%s" % (r.error, "".join(r.cex[-3:])[:3000]))
     A.run_flavour(ctx, "reactor", "ReactorBase timed calls")
